@@ -29,7 +29,11 @@ RULE = (
     "filter keeps exactly the keys below it; file / absent prefixes behave as documented. HIST: a history on ONE "
     "Tree instance - drawn trie-backed reads (get_obj, filter, iteritems, as_trie, ls, shortest_prefix) interleaved "
     "with Tree.add overwriting existing keys with new hashes, adds of new keys and re-digests; after every step "
-    "as_bytes/digest == reference of a model dict and every drawn read agrees with the model. "
+    "as_bytes/digest == reference of a model dict and every drawn read agrees with the model. PUB: several trees "
+    "published with Tree.from_trie from ONE working trie (plain pygtrie or an earlier tree's as_trie()) that is "
+    "edited (replace/add/remove keys) between publications; after every step a drawn published tree - often an "
+    "earlier one - must have listing/id == reference of the entries it was published with and answer the drawn "
+    "prefix reads from exactly those entries. "
     "FS: a generated tree materialised twice in two drawn creation orders (second copy on tmpfs or on the "
     "disk temp dir), staged with build() under checksum_jobs in {None,1,2,8}, state none / cold+warm, optionally "
     "with the State already holding rows for the same unchanged files from a build / _get_hashes run under the "
@@ -46,6 +50,7 @@ RULE = (
     "its own hashlib digest; metamorphic: every whole-tree build of a case gives ONE id and every file ONE "
     "digest on all routings (where the legacy digest of a >1 MiB file is not pinned down, only this is asked). "
     "Non-trivial: pure = >=3 entries, >=1 nested key, permutation != identity; "
+    "pub = nested keys and a read on a published tree whose entries differ from the working trie's current ones; "
     "hist = nested keys and a read, then an overwrite of an existing key with another hash, then a prefix-based read; "
     "fs = >=2 files and (>=2 files hashed on pool threads in one phase, or a warm build served entirely from "
     "the state, or a State pre-warmed under another algorithm, or a walk that reaches a root holding files after a "
@@ -169,6 +174,30 @@ def hist_cases(draw):
         "oids": draw(st.lists(st.sampled_from(XOIDS), min_size=1, max_size=6)),
         "first_reads": draw(st.lists(st.sampled_from(READS), max_size=2, unique=True)),
         "steps": draw(st.lists(HSTEP, min_size=1, max_size=8)),
+    }
+
+
+PSTEP = st.fixed_dictionaries({
+    "op": st.sampled_from(["replace", "replace", "add", "remove", "publish", "publish", "reopen", "none"]),
+    "i": st.integers(0, 11),
+    "oid": st.sampled_from(XOIDS),
+    "name": PN,
+    "t": st.integers(0, 5),
+    "p": st.integers(0, 7),
+    "reads": st.lists(st.sampled_from(READS), min_size=0, max_size=3, unique=True),
+})
+
+
+@st.composite
+def pub_cases(draw):
+    """Several trees published with Tree.from_trie from ONE working trie that keeps being edited."""
+    return {
+        "kind": "pub",
+        "algo": draw(st.sampled_from(HNAMES)),
+        "keys": draw(PKEYS),
+        "oids": draw(st.lists(st.sampled_from(XOIDS), min_size=1, max_size=6)),
+        "via": draw(st.sampled_from(["trie", "as_trie"])),
+        "steps": draw(st.lists(PSTEP, min_size=2, max_size=9)),
     }
 
 
@@ -550,6 +579,85 @@ def run_hist(case, ctx):
         reset_globals()
 
 
+def run_pub(case, ctx):
+    """as_trie -> edit -> from_trie -> digest, with one working trie published more than once: every published
+    tree must keep answering from the entry set it was published with."""
+    from pygtrie import Trie
+
+    from dvc_data.hashfile.hash_info import HashInfo
+    from dvc_data.hashfile.meta import Meta
+    from dvc_data.hashfile.tree import Tree
+
+    reset_globals()
+    try:
+        algo = case["algo"]
+        model = entries_of(case)
+        odb = ops.make_odb("mem", "/odb", hash_name=algo)
+        viols, classes = [], [f"pub:algo={algo}", "pub:via=" + case["via"]]
+        if case["via"] == "as_trie":
+            work = mk_tree(model, sorted(model), [{}], algo).as_trie()
+        else:
+            work = Trie({k: (Meta(), HashInfo(algo, v)) for k, v in model.items()})
+        published = []  # (tree, snapshot of the entries it was published with)
+        edits_since_publish = 0
+        judged_stale_candidate = False
+
+        def publish():
+            nonlocal edits_since_publish
+            t = Tree.from_trie(work)
+            t.digest(name=algo)
+            published.append((t, dict(model)))
+            edits_since_publish = 0
+
+        publish()
+        for n, st_ in enumerate(case["steps"]):
+            keys = sorted(model)
+            k = keys[st_["i"] % len(keys)]
+            op = st_["op"]
+            if op == "replace":
+                if model[k] != st_["oid"]:
+                    edits_since_publish += 1
+                model[k] = st_["oid"]
+                work[k] = (Meta(size=n), HashInfo(algo, st_["oid"]))
+            elif op == "add":
+                nk = (*k[:-1], st_["name"])
+                if nk not in model and not any(nk[:len(o)] == o or o[:len(nk)] == nk for o in model):
+                    model[nk] = st_["oid"]
+                    work[nk] = (Meta(size=n), HashInfo(algo, st_["oid"]))
+                    edits_since_publish += 1
+            elif op == "remove":
+                if len(model) > 1:
+                    del model[k]
+                    del work[k]
+                    edits_since_publish += 1
+            elif op == "publish":
+                publish()
+                classes.append("pub:republished")
+            elif op == "reopen":
+                # round trip: take an earlier tree's as_trie() as the new working trie
+                t, snap = published[st_["t"] % len(published)]
+                work = t.as_trie()
+                model = dict(snap)
+                classes.append("pub:as_trie-roundtrip")
+            # query one published tree (often an EARLIER one) against the entries it was published with
+            idx = st_["t"] % len(published)
+            t, snap = published[idx]
+            where = f"after step {n} ({op}), tree #{idx} of {len(published)}"
+            if t.as_bytes() != ref_bytes(joined(snap), algo) or t.oid != ref_oid(joined(snap), algo):
+                viols.append(Viol("pub:bytes-or-oid", f"{where}: listing/id != reference of its own entries"))
+            check_reads(t, odb, snap, algo, st_["reads"], st_["p"], st_["i"] + n, viols, where)
+            if st_["reads"] and snap != model and (idx < len(published) - 1 or edits_since_publish):
+                judged_stale_candidate = True
+            if viols:
+                break
+        nested = any(len(k) > 1 for k in model) or any(len(k) > 1 for _, sn in published for k in sn)
+        if judged_stale_candidate:
+            classes.append("pub:earlier-tree-queried-after-edit")
+        return Result(viols, nested and judged_stale_candidate, sorted(set(classes)))
+    finally:
+        reset_globals()
+
+
 # ------------------------------------------------------------------------------------------
 # filesystem half
 # ------------------------------------------------------------------------------------------
@@ -892,6 +1000,8 @@ def run_case(case, ctx):
         return run_pure(case, ctx)
     if case["kind"] == "hist":
         return run_hist(case, ctx)
+    if case["kind"] == "pub":
+        return run_pub(case, ctx)
     return run_fs(case, ctx)
 
 
@@ -900,7 +1010,8 @@ def run(ctx):
     if ctx.run_given(fs_cases(thorough=ctx.tier == "thorough"), run_case,
                      ctx.n(quick=100, thorough=1500)):
         if ctx.run_given(pure_cases(), run_case, ctx.n(quick=450, thorough=16000)):
-            ctx.run_given(hist_cases(), run_case, ctx.n(quick=250, thorough=8000))
+            if ctx.run_given(hist_cases(), run_case, ctx.n(quick=200, thorough=6000)):
+                ctx.run_given(pub_cases(), run_case, ctx.n(quick=120, thorough=4000))
 
 
 def replay(case, ctx):
